@@ -10,6 +10,7 @@ import (
 	"github.com/modernizing/coca/pkg/domain/core_domain"
 	"github.com/spf13/cobra"
 	"log"
+	"math"
 	"strconv"
 )
 
@@ -42,7 +43,16 @@ var evaluateCmd = &cobra.Command{
 
 		result := analyser.Analysis(parsedDeps, identifiers)
 
-		cModel, _ := json.MarshalIndent(result, "", "\t")
+		// JSON has no NaN: a standard deviation over fewer than two samples (a project with one class, or with at
+		// most one counted method) made MarshalIndent fail and evaluate.json was written empty
+		report := result
+		if math.IsNaN(report.Summary.MethodLengthStdDeviation) {
+			report.Summary.MethodLengthStdDeviation = 0
+		}
+		if math.IsNaN(report.Summary.MethodNumStdDeviation) {
+			report.Summary.MethodNumStdDeviation = 0
+		}
+		cModel, _ := json.MarshalIndent(report, "", "\t")
 		cmd_util.WriteToCocaFile("evaluate.json", string(cModel))
 
 		buildOutput(result)
